@@ -94,7 +94,8 @@ def cut_scenario(cl, prefix, nflight=6):
     answered = [s.get("reply") is not None for s in fl]
     res = {"prefix": prefix, "nflight": nflight, "answered": answered, "results": [(s["reply"] or {}).get("result") if s.get("reply") else None for s in fl],
            "text_inflight_reply": st[4 + nflight].get("reply"), "after_bin": (st[-2].get("reply") or {}).get("result") if st[-2].get("reply") else None,
-           "after_text": st[-1].get("reply"), "extras": out["extras"], "conn_errors": out["conn_errors"], "wall_s": round(time.time() - t0, 2)}
+           "after_text": st[-1].get("reply"), "extras": out["extras"], "conn_errors": out["conn_errors"], "wall_s": round(time.time() - t0, 2),
+           "script": sc, "out": out, "text_steps_on_cut_link": [2, 4 + nflight]}
     # what the leader did with the commands nobody was told about
     held = cl.show(cl.lport)
     res["leader_holds_for_unanswered"] = [j for j in range(nflight) if not answered[j] and held.get(k16(prefix, "f%d" % j).encode().hex(), 0) > 0]
